@@ -123,6 +123,7 @@ type w1Case struct {
 	state    bool // compare Device.State() after every step
 	monitor  bool // only the byte-level monitor judges the run (configurations outside the reference model)
 	burst    bool // key-only script fed in bursts against a slow consumer; whole-stream comparison at sync points
+	preCC    map[[2]int]int // controller values the receiver holds before the device is connected
 }
 
 type w1Exec struct {
@@ -202,6 +203,9 @@ func execW1(t *testing.T, seed uint64, c *w1Case, cfg config.Config, script []mo
 			}
 		})
 		m := model.NewDev(c.d)
+		for k, v := range c.preCC {
+			m.Recv.CC[k] = v
+		}
 		if prop == "C01" {
 			m.Focus = "C01"
 		}
